@@ -184,21 +184,26 @@ def _container(flavour: str, chunk: bytes) -> t.Any:
 
 def _scribble(flavour: str, buf: t.Any) -> t.Optional[str]:
     """The caller reuses its input buffer right after receive returns."""
-    try:
-        if flavour == "bytearray":
-            for i in range(len(buf)):
-                buf[i] = 0xEE
-            buf.extend(b"\xee" * 7)
-            del buf[:]
-        elif flavour == "memoryview":
-            base = buf.obj
-            for i in range(len(base)):
-                base[i] = 0xEE
-            buf.release()
-            base.extend(b"\xee")
+    if flavour not in ("bytearray", "memoryview"):
+        return None
+    base = buf if flavour == "bytearray" else buf.obj
+    for i in range(len(base)):
+        base[i] = 0xEE
+    if flavour == "memoryview":
+        buf.release()
+    for attempt in (0, 1):
+        try:
+            base.extend(b"\xee" * 7)
             del base[:]
-    except BufferError as e:
-        return f"the session still holds an export of the caller's buffer: {e}"
+            return None
+        except BufferError as e:
+            if attempt == 0:
+                # a view kept alive only by garbage (an exception's traceback in a reference cycle) is not the session's
+                import gc
+
+                gc.collect()
+            else:
+                return f"the session still holds an export of the caller's buffer: {e}"
     return None
 
 
